@@ -97,8 +97,13 @@ func (c *ExecCtx) syncCall(st *State, fn *types.Func, f *ast.SelectorExpr, call 
 		c.release(st, f.X, call.Pos())
 		return nil, true
 	case "(*sync.Mutex).TryLock", "(*sync.RWMutex).TryLock":
+		// TryLock: the lock is held exactly when the result is true (a
+		// conditional lock, like CtxMutex.Lock); guarded state is forgotten
 		ok := u.fresh("trylock", SBool)
-		u.unsupportedf(call.Pos(), "TryLock")
+		c.yield(st)
+		k, _, fieldKey := c.lockKeyOf(st, f.X)
+		st.condLocks = append(st.condLocks, condLock{key: k, cond: ok, expr: f.X})
+		c.havocGuarded(st, fieldKey, f.X)
 		return []Val{{ok, types.Typ[types.Bool]}}, true
 	case "(*" + modulePath + "/internal.CtxMutex).Lock", "(" + modulePath + "/internal.CtxMutex).Lock":
 		// Lock(ctx) error: held only when nil is returned
@@ -739,8 +744,48 @@ func (c *ExecCtx) chanNeverClosed(e ast.Expr) bool {
 	if obj.Pos() < body.Pos() || obj.Pos() > body.End() {
 		return false // parameter or foreign
 	}
-	info := root.fn.Pkg.TypesInfo
-	okAll, made := true, false
+	made, okAll := c.u.eng.chanVarQuiet(root.fn.Pkg.TypesInfo, body, obj, 0)
+	return okAll && made
+}
+
+// recvDelivers: the unit's contract says `recv_delivers <chan expr>`.
+func (c *ExecCtx) recvDelivers(e ast.Expr) bool {
+	root := c
+	for root.parent != nil && root.spec == nil {
+		root = root.parent
+	}
+	if root.spec == nil {
+		return false
+	}
+	name := exprString(e)
+	for _, raw := range root.spec.Extra["recv_delivers"] {
+		if strings.TrimSpace(raw) == name {
+			note := "recv_delivers " + name + " (a receive obtains a sent value, not the closed-channel zero)"
+			seen := false
+			for _, a := range c.u.assumesUsed {
+				if a == note {
+					seen = true
+				}
+			}
+			if !seen {
+				c.u.assumesUsed = append(c.u.assumesUsed, note)
+			}
+			return true
+		}
+	}
+	return false
+}
+
+// chanVarQuiet: inside `body`, channel variable obj is only ever the operand of
+// send / receive / range, the target of its defining make, or an argument
+// handed to a module function whose corresponding parameter is used the same
+// way (recursively): nobody can close it. made reports a defining
+// `v := make(chan ...)` in body.
+func (e *Engine) chanVarQuiet(info *types.Info, body ast.Node, obj *types.Var, depth int) (made, okAll bool) {
+	okAll = true
+	if depth > 4 {
+		return false, false
+	}
 	var stack []ast.Node
 	ast.Inspect(body, func(n ast.Node) bool {
 		if n == nil {
@@ -775,11 +820,49 @@ func (c *ExecCtx) chanNeverClosed(e ast.Expr) bool {
 					}
 				}
 			}
+		case *ast.CallExpr:
+			// passed to a module function: its parameter must be quiet too
+			for ai, a := range p.Args {
+				if a != n {
+					continue
+				}
+				var fn *types.Func
+				switch f := ast.Unparen(p.Fun).(type) {
+				case *ast.Ident:
+					fn, _ = info.Uses[f].(*types.Func)
+				case *ast.SelectorExpr:
+					fn, _ = info.Uses[f.Sel].(*types.Func)
+				}
+				if fn == nil {
+					break
+				}
+				fi := e.funcs[fn]
+				if fi == nil || fi.Decl == nil || fi.Decl.Body == nil || fi.Decl.Type.Params == nil {
+					break
+				}
+				// parameter object at position ai
+				k := 0
+				var pobj *types.Var
+				for _, fld := range fi.Decl.Type.Params.List {
+					for _, nm := range fld.Names {
+						if k == ai {
+							pobj, _ = fi.Pkg.TypesInfo.Defs[nm].(*types.Var)
+						}
+						k++
+					}
+				}
+				if pobj == nil {
+					break
+				}
+				if _, ok2 := e.chanVarQuiet(fi.Pkg.TypesInfo, fi.Decl.Body, pobj, depth+1); ok2 {
+					return true
+				}
+			}
 		}
 		okAll = false
 		return true
 	})
-	return okAll && made
+	return made, okAll
 }
 
 // fieldChanNeverClosed: module-wide syntactic scan (cached): field f (of
@@ -853,6 +936,10 @@ func (c *ExecCtx) evalRecv(st *State, x *ast.UnaryExpr, commaOk bool) []Val {
 	}
 	okT := u.fresh("recvok", SBool)
 	if c.chanNeverClosed(x.X) {
+		st.assumeT(okT)
+	} else if c.recvDelivers(x.X) {
+		// contract clause `recv_delivers ch`: ASSUMED (and listed) that a receive
+		// on ch in this unit obtains a sent value, not the closed-channel zero
 		st.assumeT(okT)
 	}
 	base := len(st.assume)
